@@ -166,8 +166,9 @@ func buildScript(vc *VC, assumes []*Term, final *Term, wantModel bool) string {
 		sb.WriteString("(assert (forall ((a Str) (b Str) (c Str)) (! (=> (= (str.cat a b) (str.cat a c)) (= b c)) :pattern ((str.cat a b) (str.cat a c)))))\n")
 		sb.WriteString("(assert (forall ((a Str) (b Str)) (! (= (strlen (str.cat a b)) (+ (strlen a) (strlen b))) :pattern ((str.cat a b)))))\n")
 	}
-	if _, ok := ufs["bstr"]; ok {
-		// string(bytes) depends only on the bytes it covers
+	if _, ok := ufs["bstr"]; ok && (vc.fc == nil || vc.fc.Flags["bstr_ext"] != "") {
+		// string(bytes) depends only on the bytes it covers (extensionality; needed only where a string equality has to
+		// be derived from byte equalities: lemmas and functions flagged `bstr_ext`)
 		sb.WriteString("(assert (forall ((a (Array Int Int)) (o Int) (n Int) (b (Array Int Int)) (p Int)) (! (=> (forall ((j Int)) (=> (and (<= 0 j) (< j n)) (= (select a (+ o j)) (select b (+ p j))))) (= (bstr a o n) (bstr b p n))) :pattern ((bstr a o n) (bstr b p n)))))\n")
 		if _, ok := ufs["strbytes"]; ok {
 			sb.WriteString("(assert (forall ((s Str)) (! (= (bstr (strbytes s) 0 (strlen s)) s) :pattern ((strbytes s)))))\n")
@@ -189,9 +190,11 @@ func buildScript(vc *VC, assumes []*Term, final *Term, wantModel bool) string {
 			sb.WriteString(" " + smtName(s))
 		}
 		sb.WriteString("))\n")
-		if _, ok := vars["H$$alloc"]; ok {
-			for _, s := range sents {
-				fmt.Fprintf(&sb, "(assert (select |H$$alloc| %s))\n", smtName(s))
+		if _, ok := vars["H$$clock"]; ok {
+			if _, ok := ufs["birth"]; ok {
+				for _, s := range sents {
+					fmt.Fprintf(&sb, "(assert (< (birth %s) |H$$clock|))\n", smtName(s))
+				}
 			}
 		}
 		if _, ok := ufs["wraps"]; ok {
@@ -245,6 +248,28 @@ func buildScript(vc *VC, assumes []*Term, final *Term, wantModel bool) string {
 	}
 	if _, ok := ufs["strbytes"]; ok {
 		sb.WriteString("(assert (forall ((s Str) (i Int)) (! (and (<= 0 (select (strbytes s) i)) (<= (select (strbytes s) i) 255)) :pattern ((select (strbytes s) i)))))\n")
+	}
+	// same-width sign reinterpretation (lazy axioms instead of mod arithmetic)
+	for _, bits := range []int{8, 16, 32, 64} {
+		u2s, s2u := fmt.Sprintf("u2s%d", bits), fmt.Sprintf("s2u%d", bits)
+		_, hasU := ufs[u2s]
+		_, hasS := ufs[s2u]
+		if !hasU && !hasS {
+			continue
+		}
+		if !hasU {
+			fmt.Fprintf(&sb, "(declare-fun %s (Int) Int)\n", u2s)
+		}
+		if !hasS {
+			fmt.Fprintf(&sb, "(declare-fun %s (Int) Int)\n", s2u)
+		}
+		half, full := pow2(bits-1).String(), pow2(bits).String()
+		fmt.Fprintf(&sb, "(assert (forall ((x Int)) (! (and (=> (and (<= 0 x) (< x %s)) (= (%s x) x)) (=> (and (<= %s x) (< x %s)) (= (%s x) (- x %s))) (<= (- %s) (%s x)) (< (%s x) %s)) :pattern ((%s x)))))\n",
+			half, u2s, half, full, u2s, full, half, u2s, u2s, half, u2s)
+		fmt.Fprintf(&sb, "(assert (forall ((x Int)) (! (and (=> (and (<= 0 x) (< x %s)) (= (%s x) x)) (=> (and (<= (- %s) x) (< x 0)) (= (%s x) (+ x %s))) (<= 0 (%s x)) (< (%s x) %s)) :pattern ((%s x)))))\n",
+			half, s2u, half, s2u, full, s2u, s2u, full, s2u)
+		fmt.Fprintf(&sb, "(assert (forall ((x Int)) (! (=> (and (<= 0 x) (< x %s)) (= (%s (%s x)) x)) :pattern ((%s (%s x))))))\n", full, s2u, u2s, s2u, u2s)
+		fmt.Fprintf(&sb, "(assert (forall ((x Int)) (! (=> (and (<= (- %s) x) (< x %s)) (= (%s (%s x)) x)) :pattern ((%s (%s x))))))\n", half, half, u2s, s2u, u2s, s2u)
 	}
 	// byte packing
 	for _, w := range []int{2, 4, 8} {
@@ -346,6 +371,23 @@ func runSolver(name string, script string, timeout time.Duration, dir string, id
 	switch name {
 	case "z3-new":
 		cmd = exec.CommandContext(ctx, "z3-new", fmt.Sprintf("-t:%d", ms), fmt.Sprintf("smt.random_seed=%d", seed), "-smt2", file)
+	case "z3-new-noext#1", "z3-new-noext#2", "z3-new-noext#3":
+		// portfolio variants: other seeds and instantiation thresholds (quantifier heuristics are chaotic on large queries)
+		k := int(name[len(name)-1] - '0')
+		opts := []string{fmt.Sprintf("-t:%d", ms), fmt.Sprintf("smt.random_seed=%d", seed+17*k), "smt.array.extensional=false"}
+		switch k {
+		case 1:
+			opts = append(opts, "smt.qi.eager_threshold=5")
+		case 2:
+			opts = append(opts, "smt.restart_strategy=0", "smt.phase_selection=0")
+		case 3:
+			opts = append(opts, "smt.case_split=3", "smt.qi.eager_threshold=100")
+		}
+		cmd = exec.CommandContext(ctx, "z3-new", append(opts, "-smt2", file)...)
+	case "z3-new-noext":
+		// array extensionality off: fewer inferences (never unsound for `unsat`), much faster with array-valued
+		// arguments of abstract predicates
+		cmd = exec.CommandContext(ctx, "z3-new", fmt.Sprintf("-t:%d", ms), fmt.Sprintf("smt.random_seed=%d", seed), "smt.array.extensional=false", "-smt2", file)
 	case "z3":
 		cmd = exec.CommandContext(ctx, "z3", fmt.Sprintf("-t:%d", ms), fmt.Sprintf("smt.random_seed=%d", seed), "-smt2", file)
 	case "cvc5":
@@ -358,7 +400,15 @@ func runSolver(name string, script string, timeout time.Duration, dir string, id
 	_ = cmd.Run()
 	secs := time.Since(t0).Seconds()
 	text := out.String()
-	first := strings.TrimSpace(strings.SplitN(text, "\n", 2)[0])
+	first := ""
+	for _, l := range strings.Split(text, "\n") {
+		l = strings.TrimSpace(l)
+		if l == "" || strings.HasPrefix(l, "WARNING") || strings.HasPrefix(l, "(warning") {
+			continue
+		}
+		first = l
+		break
+	}
 	v := "error"
 	switch {
 	case first == "unsat":
@@ -487,14 +537,23 @@ func solveOne(o *Oblig, id int, opt solveOpts) {
 		o.Verdict = "unsat"
 		return
 	}
-	r := runSolver("z3-new", script, opt.timeout, opt.scratch, id, opt.seed)
+	r := runSolver("z3-new-noext", script, opt.timeout, opt.scratch, id, opt.seed)
 	o.Attempts = append(o.Attempts, fmt.Sprintf("%s:%s:%.2fs", r.solver, r.verdict, r.secs))
+	if r.verdict == "sat" {
+		// a model without extensionality may be spurious: confirm with the full theory
+		r2 := runSolver("z3-new", script, opt.timeout, opt.scratch, id+400000, opt.seed)
+		o.Attempts = append(o.Attempts, fmt.Sprintf("%s:%s:%.2fs", r2.solver, r2.verdict, r2.secs))
+		r = r2
+	}
 	if r.verdict != want && !(r.verdict == "sat" || r.verdict == "unsat") {
-		// race the other two
-		rc := make(chan solverResult, 2)
-		go func() { rc <- runSolver("cvc5", script, opt.timeout, opt.scratch, id, opt.seed) }()
-		go func() { rc <- runSolver("z3", script, opt.timeout, opt.scratch, id, opt.seed) }()
-		for k := 0; k < 2; k++ {
+		// race the others
+		others := []string{"cvc5", "z3", "z3-new", "z3-new-noext#1", "z3-new-noext#2", "z3-new-noext#3"}
+		rc := make(chan solverResult, len(others))
+		for j, nm := range others {
+			nm, j := nm, j
+			go func() { rc <- runSolver(nm, script, opt.timeout, opt.scratch, id+500000+j*100000, opt.seed) }()
+		}
+		for k := 0; k < len(others); k++ {
 			r2 := <-rc
 			o.Attempts = append(o.Attempts, fmt.Sprintf("%s:%s:%.2fs", r2.solver, r2.verdict, r2.secs))
 			if r2.verdict == "unsat" || r2.verdict == "sat" {
